@@ -198,7 +198,13 @@ impl Shared {
                 Ok(n.cast_unsigned())
             }
             // Hit a timeout or got interrupted, we can ignore it.
-            Err(ref err) if matches!(err.raw_os_error(), Some(libc::ETIME | libc::EINTR)) => Ok(0),
+            Err(ref err) if matches!(err.raw_os_error(), Some(libc::ETIME | libc::EINTR)) => {
+                // NOTE: submission slots can become available without us
+                // submitting them here, e.g. by the kernel thread or another
+                // thread polling.
+                self.wake_blocked_futures();
+                Ok(0)
+            }
             Err(err) => Err(err),
         }
     }
